@@ -1,5 +1,6 @@
 import Casm.Gen.Formats
 import Casm.Model.Format
+import Casm.Model.Util
 /-!
 # Casm.Model.OutFormat — `driver::parse_output_format`, `format_output` dispatch
 
@@ -11,12 +12,6 @@ structure OutFmt where
   variant : String
   fields : List (String × Nat)
 deriving DecidableEq, Repr
-
-def splitOnChar (c : Char) (s : List Char) : List (List Char) :=
-  let rec go : List Char → List Char → List (List Char) → List (List Char)
-    | [], cur, acc => (cur.reverse :: acc).reverse
-    | x :: xs, cur, acc => if x == c then go xs [] (cur.reverse :: acc) else go xs (x :: cur) acc
-  go s [] []
 
 /-- `str::parse::<usize>()`: optional `+`, at least one ASCII digit, value below 2^64 -/
 def parseUsize (s : List Char) : Option Nat :=
